@@ -11,6 +11,7 @@
 -/
 import IgrisModel.C17.Lemmas
 import IgrisModel.C17.RefLemmas
+import IgrisModel.C17.LenLemmas
 namespace Igris.C17
 open Igris.Proto
 
@@ -180,6 +181,145 @@ theorem ref_check_values :
     refLsb 0x8C#8 0#8 [0x31, 0x32, 0x33, 0x34, 0x35, 0x36, 0x37, 0x38, 0x39] = 0xA1#8 ∧
     refMsb 16 0x1021#16 0#16 [0x31, 0x32, 0x33, 0x34, 0x35, 0x36, 0x37, 0x38, 0x39] = 0x31C3#16 ∧
     refMsb 7 0x09#7 0#7 [0x31, 0x32, 0x33, 0x34, 0x35, 0x36, 0x37, 0x38, 0x39] = 0x75#7 := by
+  decide +kernel
+
+/-! # Extension: "reads only the given bytes" for every routine
+
+`mem` = the bytes mapped at the pointer argument (any number of them), `len` =
+the C length argument with its C width.  Each theorem says three things at
+once: the routine completes **iff** the `len` bytes `[0, len)` are mapped (it
+reads every one of them and nothing behind them — in particular it completes
+when *exactly* `len` bytes are mapped); its value is a function of those `len`
+bytes only (the list-level routine of the theorems above on `mem.take len`);
+this holds for every `len` of the type, `0` and the maximum included.
+`igris_strmcrc8(uint8_t *crc, char c)` takes no buffer (it reads `*crc` and
+`c`), `igris_crc32` is `crc32_reads_in_range` above. -/
+
+theorem crc8Table_reads_len (mem : List Byte) (len seed : BitVec 8) :
+    crc8TableM mem len seed =
+      if len.toNat ≤ mem.length then some (crc8Table (mem.take len.toNat) seed) else none :=
+  whileDec_spec tblStep sub1_8 256 len mem seed len.isLt
+
+theorem crc8_reads_len (mem : List Byte) (len seed : BitVec 8) :
+    crc8M mem len seed =
+      if len.toNat ≤ mem.length then some (crc8 (mem.take len.toNat) seed) else none :=
+  whileDec_spec dowStep sub1_8 256 len mem seed len.isLt
+
+theorem crc16_reads_len (mem : List Byte) (len seed : BitVec 16) :
+    crc16M mem len seed =
+      if len.toNat ≤ mem.length then some (crc16 (mem.take len.toNat) seed) else none :=
+  whileDec_spec crc16Step sub1_16 65536 len mem seed len.isLt
+
+theorem mmcCrc7_reads_len (mem : List Byte) (len : BitVec 8) :
+    mmcCrc7M mem len =
+      if len.toNat ≤ mem.length then some (mmcCrc7 (mem.take len.toNat)) else none := by
+  rw [mmcCrc7M, forUp_spec]
+  split <;> rfl
+
+/-- on an exactly sized buffer (every length the type can express) each
+routine returns the list-level value: all theorems above (`*_eq_ref`,
+`*_chain`, `crc8_table_eq_serial`) apply to the C calls -/
+theorem exact_buffers (data : List Byte) (s8 : BitVec 8) (s16 : BitVec 16) :
+    (data.length < 256 →
+      crc8TableM data (BitVec.ofNat 8 data.length) s8 = some (crc8Table data s8) ∧
+      crc8M data (BitVec.ofNat 8 data.length) s8 = some (crc8 data s8) ∧
+      mmcCrc7M data (BitVec.ofNat 8 data.length) = some (mmcCrc7 data)) ∧
+    (data.length < 65536 →
+      crc16M data (BitVec.ofNat 16 data.length) s16 = some (crc16 data s16)) := by
+  constructor
+  · intro h
+    have e : (BitVec.ofNat 8 data.length).toNat = data.length := by simp; omega
+    rw [crc8Table_reads_len, crc8_reads_len, mmcCrc7_reads_len, e]
+    simp
+  · intro h
+    have e : (BitVec.ofNat 16 data.length).toNat = data.length := by simp; omega
+    rw [crc16_reads_len, e]
+    simp
+
+example : ([1#8, 2#8] : List Byte).length < 256 ∧ ([1#8, 2#8] : List Byte).length < 65536 := by decide
+
+/-- `len = 0`: nothing is read, whatever is (not) mapped; the seed is returned -/
+theorem len0_reads_nothing (mem : List Byte) (s8 : BitVec 8) (s16 : BitVec 16) :
+    crc8TableM mem 0 s8 = some s8 ∧ crc8M mem 0 s8 = some s8 ∧ crc16M mem 0 s16 = some s16 ∧
+    mmcCrc7M mem 0 = some 0 := by
+  rw [crc8Table_reads_len, crc8_reads_len, crc16_reads_len, mmcCrc7_reads_len]
+  simp [crc8Table, crc8, crc16, mmcCrc7]
+
+/-- the maximum of the type: 255 (65535) bytes are read, the 256th (65536th) is not -/
+theorem lenmax_reads_exactly (mem : List Byte) (s8 : BitVec 8) (s16 : BitVec 16) :
+    (mem.length = 255 → crc8TableM mem 255 s8 = some (crc8Table mem s8) ∧ crc8M mem 255 s8 = some (crc8 mem s8) ∧
+      mmcCrc7M mem 255 = some (mmcCrc7 mem)) ∧
+    (mem.length = 65535 → crc16M mem 65535 s16 = some (crc16 mem s16)) := by
+  constructor
+  · intro h
+    have e : (255 : BitVec 8).toNat = mem.length := by rw [h]; rfl
+    rw [crc8Table_reads_len, crc8_reads_len, mmcCrc7_reads_len, e]
+    simp only [Nat.le_refl, if_true, List.take_length, and_self]
+  · intro h
+    have e : (65535 : BitVec 16).toNat = mem.length := by rw [h]; rfl
+    rw [crc16_reads_len, e, if_pos (Nat.le_refl _), List.take_length]
+
+example : (List.replicate 255 (0#8 : Byte)).length = 255 := List.length_replicate
+
+/-- one unmapped byte inside `[0, len)` and the routine faults (it reads all of them) -/
+theorem short_buffer_faults (mem : List Byte) (len seed : BitVec 8) (h : mem.length < len.toNat) :
+    crc8TableM mem len seed = none ∧ crc8M mem len seed = none ∧ mmcCrc7M mem len = none := by
+  rw [crc8Table_reads_len, crc8_reads_len, mmcCrc7_reads_len]
+  simp [Nat.not_le.mpr h]
+
+example : ([] : List Byte).length < (1#8 : BitVec 8).toNat := by decide
+
+/-- the seeded change `do { … } while (--len);` in `igris_crc8_table` reads a
+byte when `len = 0` (and 255 more): it faults on the empty buffer, where the
+routine must return the seed (`len0_reads_nothing`) -/
+theorem crc8Table_doWhile_len0_witness (seed : BitVec 8) :
+    doWhileDec tblStep 257 (0#8 : BitVec 8) [] seed = none ∧ crc8TableM [] 0 seed = some seed :=
+  ⟨rfl, (len0_reads_nothing [] seed 0).1⟩
+
+/-! ## catalogue check values, evaluated by the kernel on the routines themselves
+(message "123456789"; names of the reveng CRC catalogue) -/
+
+/-- CRC-8/MAXIM-DOW = 0xA1 (both Dallas routines), CRC-7/MMC = 0x75,
+CRC-8/NRSC-5 (poly 0x31, init 0xFF: the streaming CRC-8 as gstuff seeds it) = 0xF7,
+CRC-16/XMODEM (init 0) = 0x31C3, CRC-16/IBM-3740 "CCITT-FALSE" (init 0xFFFF) = 0x29B1,
+CRC-16/SPI-FUJITSU "AUG-CCITT" (init 0x1D0F) = 0xE5CC -/
+theorem routine_check_values :
+    let m9 : List Byte := [0x31, 0x32, 0x33, 0x34, 0x35, 0x36, 0x37, 0x38, 0x39]
+    crc8M m9 9 0 = some 0xA1#8 ∧ crc8TableM m9 9 0 = some 0xA1#8 ∧ mmcCrc7M m9 9 = some 0x75#8 ∧
+    strmcrc8 0xFF m9 = 0xF7#8 ∧
+    crc16M m9 9 0 = some 0x31C3#16 ∧ crc16M m9 9 0xFFFF = some 0x29B1#16 ∧ crc16M m9 9 0x1D0F = some 0xE5CC#16 := by
+  decide +kernel
+
+/-- CRC-32: the reference with init 0xFFFFFFFF is CRC-32/MPEG-2 (check value
+0x0376E6E7); the routine on one zero word after reset gives the STM32 CRC
+unit's well-known 0xC704DD7B; "HelloWorld" is the value pinned by tests/crc.cpp -/
+theorem crc32_check_values :
+    refMsb 32 0x04C11DB7#32 0xFFFFFFFF#32 [0x31, 0x32, 0x33, 0x34, 0x35, 0x36, 0x37, 0x38, 0x39] = 0x0376E6E7#32 ∧
+    crc32 [0, 0, 0, 0] 4 0xFFFFFFFF#32 = some 0xC704DD7B#32 ∧
+    crc32 [0x48, 0x65, 0x6C, 0x6C, 0x6F, 0x57, 0x6F, 0x72, 0x6C, 0x64] 10 0#32 = some (BitVec.ofNat 32 1114288986) := by
+  decide +kernel
+
+/-- `igris_crc32` on word-aligned input is the bit-serial CRC-32/MPEG-2
+register (poly 0x04C11DB7, MSB first, no reflection, no final xor; init =
+`seed`) over the message with every 32-bit word byte-swapped … -/
+theorem crc32_aligned_eq_mpeg2_of_swapped (data : List Byte) (seed : BitVec 32) (h : data.length % 4 = 0) :
+    crc32 data data.length seed = some (refMsb 32 0x04C11DB7#32 seed (wordSwap data)) := by
+  rw [crc32_eq_ref, bitOrder_aligned data h]
+
+/-- … equivalently: CRC-32/MPEG-2 of a word-aligned message is `igris_crc32`
+of its byte-swapped words (STM32 CRC unit fed with big-endian words).  For a
+length that is not a multiple of four the true relation is `crc32_eq_ref`:
+the 1–3 tail bytes are zero-padded to a word *in front* (`00 … b2 b1 b0`),
+which no standard CRC does (finding C17-crc32-split). -/
+theorem mpeg2_eq_crc32_of_swapped (data : List Byte) (seed : BitVec 32) (h : data.length % 4 = 0) :
+    crc32 (wordSwap data) (wordSwap data).length seed = some (refMsb 32 0x04C11DB7#32 seed data) := by
+  rw [crc32_aligned_eq_mpeg2_of_swapped _ _ (by rw [wordSwap_length]; exact h), wordSwap_wordSwap]
+
+/-- the unaligned tail is not MPEG-2 of anything simple: one byte `b` gives the
+register of the word `00 00 00 b` -/
+theorem crc32_tail_witness :
+    crc32 [0x31] 1 0xFFFFFFFF#32 = some (refMsb 32 0x04C11DB7#32 0xFFFFFFFF#32 [0, 0, 0, 0x31]) ∧
+    crc32 [0x31] 1 0xFFFFFFFF#32 ≠ some (refMsb 32 0x04C11DB7#32 0xFFFFFFFF#32 [0x31]) := by
   decide +kernel
 
 -- non-vacuity of `crc32_chain_partial`'s hypothesis
